@@ -31,8 +31,8 @@ impl TraitHandler for CopyHandler {
 
         let mut field_types = vec![];
 
-        // if `contains_clone` is true, the implementation is handled by the `Clone` attribute, and field attributes is also handled by the `Clone` attribute
-        if !contains_clone {
+        // misplaced `Copy` attributes on variants and fields are always rejected here
+        {
             match &ast.data {
                 Data::Struct(data) => {
                     for field in data.fields.iter() {
@@ -63,7 +63,10 @@ impl TraitHandler for CopyHandler {
                     }
                 },
             }
+        }
 
+        // if `contains_clone` is true, the implementation is handled by the `Clone` attribute
+        if !contains_clone {
             let ident = &ast.ident;
 
             let bound =
